@@ -324,13 +324,13 @@ func fingerprintChain(p *Prog, r *Report, ru *Rule, fn *ssa.Function, depth int)
 		if !ok || 0 == len(ret.Results) {
 			return
 		}
-		if len(ret.Results) > 1 && !isNilConst(ret.Results[len(ret.Results)-1]) {
+		if len(ret.Results) > 1 && !isNilConst(retVal(ret, len(ret.Results)-1)) {
 			/* Error return or forwarded tuple. */
-			if _, isEx := ret.Results[len(ret.Results)-1].(*ssa.Extract); !isEx {
+			if _, isEx := retVal(ret, len(ret.Results)-1).(*ssa.Extract); !isEx {
 				return
 			}
 		}
-		v := ret.Results[0]
+		v := retVal(ret, 0)
 		var call *ssa.Call
 		if ex, ok := v.(*ssa.Extract); ok {
 			call, _ = ex.Tuple.(*ssa.Call)
